@@ -160,6 +160,8 @@ type c07Case struct {
 	Set     int    `json:"argset"`
 	Logger  bool   `json:"logger"`
 	Names   string `json:"names,omitempty"`
+	// LoggerPair: [letter, letter, alt] of the logger transparency unit (letters of C01's alphabet)
+	LoggerPair []int `json:"logger_pair,omitempty"`
 }
 
 func c07Names(ls []int) string {
@@ -208,6 +210,9 @@ func init() {
 			D := c07Depth(w.Tier)
 			seq := []int{u / nl, u % nl}
 			st := &c07State{w: w}
+			if u == 0 {
+				c07LoggerTransparency(w, nil)
+			}
 			if u%nl == 0 {
 				st.check(&c07Case{Letters: seq[:1], Set: 0, Logger: true})
 				st.check(&c07Case{Letters: seq[:1], Set: 1})
@@ -272,6 +277,10 @@ func init() {
 			var cs c07Case
 			if err := unmarshalCase(data, &cs); err != nil {
 				return err
+			}
+			if cs.LoggerPair != nil {
+				c07LoggerTransparency(w, cs.LoggerPair)
+				return nil
 			}
 			(&c07State{w: w}).check(&cs)
 			return nil
@@ -505,4 +514,72 @@ func c07DiffTolX(got, want []rec.RCall, f float64) string {
 		}
 	}
 	return ""
+}
+
+// c07LoggerTransparency: every Destination method, with arguments that tell its parameters apart, reaches
+// the destination behind a DestinationLogger (either output format) exactly as it was called, and the
+// read-backs come from that destination. Programs: every ordered pair of letters of C01's alphabet (all
+// 28 mutating methods, every ADJ, both arcs) in a protocol-respecting frame.
+func c07LoggerTransparency(w *mc.W, only []int) {
+	frame := func(l c01Letter) (pre, post []rec.Call) {
+		if l.drawing {
+			return []rec.Call{{M: rec.MStartPath, A: [6]float32{1, 2}}}, []rec.Call{{M: rec.MEndPath}}
+		}
+		return nil, nil
+	}
+	for i, a := range c01L {
+		for j, b := range c01L {
+			for alt := 0; alt < 2; alt++ {
+				if only != nil && (i != only[0] || j != only[1] || alt != only[2]) {
+					continue
+				}
+				if a.read != 0 && a.read != 'c' && a.read != 'n' || b.read != 0 && b.read != 'c' && b.read != 'n' {
+					continue // assignments of the Encoder's resolution flag are no Destination calls
+				}
+				if a.drawing != b.drawing || a.call.M == rec.MEndPath || b.call.M == rec.MStartPath && a.call.M == rec.MStartPath {
+					continue
+				}
+				w.Eval()
+				var d1, d2 rec.Dest
+				var e1, e2 encode.Encoder
+				d1.Next, d2.Next = &e1, &e2
+				lg := &ivg.DestinationLogger{Destination: &d2, Alt: alt == 1}
+				var reads1, reads2 []uint8
+				run := func(d ivg.Destination, reads *[]uint8) {
+					d.Reset(c10CustomVB, c10CustomPal)
+					pre, post := frame(a)
+					for k := range pre {
+						pre[k].Apply(d)
+					}
+					for _, l := range []c01Letter{a, b} {
+						switch l.read {
+						case 'c':
+							*reads = append(*reads, d.CSel())
+						case 'n':
+							*reads = append(*reads, d.NSel())
+						default:
+							l.call.Apply(d)
+						}
+					}
+					if a.call.M == rec.MStartPath {
+						post = []rec.Call{{M: rec.MEndPath}}
+					}
+					if b.call.M == rec.MEndPath {
+						post = nil
+					}
+					for k := range post {
+						post[k].Apply(d)
+					}
+				}
+				run(&d1, &reads1)
+				run(lg, &reads2)
+				cs := c07Case{LoggerPair: []int{i, j, alt}}
+				if k := firstDiff(d1.Calls, d2.Calls); k >= 0 {
+					w.Fail("logger:call-changed:"+methodAt(d1.Calls, k), fmt.Sprintf("behind a DestinationLogger (Alt=%v) call %d arrives as %s, it was %s", alt == 1, k, callAt(d2.Calls, k), callAt(d1.Calls, k)), cs)
+				} else if fmt.Sprint(reads1) != fmt.Sprint(reads2) {
+					w.Fail("logger:readback", fmt.Sprintf("read-backs through a DestinationLogger %v, from the destination itself %v", reads2, reads1), cs)
+				}
+			}
+		}
+	}
 }
